@@ -54,6 +54,8 @@ pub enum IterState {
     Gen(Box<crate::kref::GenState>),
     /// a materialised sequence (used for adaptor results in kref's tiny iterator support)
     Seq(Vec<V>, usize),
+    /// object with @next
+    MetaNext(V),
     /// lazy adaptors with a callback (kind: 0 each, 1 keep)
     Adapt(Rc<IterObj>, V, u8),
     Done,
